@@ -314,6 +314,7 @@ func seqioFacts(repo string) (string, error) {
 	fset := token.NewFileSet()
 	consts := map[string]string{}
 	fps := map[string]string{}
+	sites := map[string][]string{}
 	for _, rel := range []string{"io/seqio/fasta/fasta.go", "io/seqio/fastq/fastq.go"} {
 		file, err := parser.ParseFile(fset, filepath.Join(repo, rel), nil, 0)
 		if err != nil {
@@ -346,6 +347,45 @@ func seqioFacts(repo string) (string, error) {
 					name = strings.TrimPrefix(rb.String(), "*") + "." + name
 				}
 				fps[pkg+"."+name] = sioFnv(b.Bytes())
+				// every expression of the function that can panic at run time: index, slice,
+				// division / remainder, single-valued type assertion
+				if v.Body != nil {
+					assigned := map[ast.Expr]bool{} // x, ok := e.(T) does not panic
+					ast.Inspect(v.Body, func(n ast.Node) bool {
+						switch st := n.(type) {
+						case *ast.AssignStmt:
+							if len(st.Lhs) == 2 && len(st.Rhs) == 1 {
+								assigned[st.Rhs[0]] = true
+							}
+						case *ast.IfStmt:
+							if as, ok := st.Init.(*ast.AssignStmt); ok && len(as.Lhs) == 2 && len(as.Rhs) == 1 {
+								assigned[as.Rhs[0]] = true
+							}
+						}
+						return true
+					})
+					ast.Inspect(v.Body, func(n ast.Node) bool {
+						e, ok := n.(ast.Expr)
+						if !ok {
+							return true
+						}
+						keep := false
+						switch x := e.(type) {
+						case *ast.IndexExpr, *ast.SliceExpr:
+							keep = true
+						case *ast.BinaryExpr:
+							keep = x.Op == token.REM || x.Op == token.QUO
+						case *ast.TypeAssertExpr:
+							keep = !assigned[e] && x.Type != nil
+						}
+						if keep {
+							var eb bytes.Buffer
+							printer.Fprint(&eb, fset, e)
+							sites[pkg+"."+name] = append(sites[pkg+"."+name], eb.String())
+						}
+						return true
+					})
+				}
 			}
 		}
 	}
@@ -378,6 +418,17 @@ func seqioFacts(repo string) (string, error) {
 			return "", fmt.Errorf("modelled function %s not found in the source", k)
 		}
 		rows = append(rows, fmt.Sprintf("  (%q, %q)", k, v))
+	}
+	sb.WriteString(strings.Join(rows, ",\n") + "]\n\n")
+	sb.WriteString("/-- per modelled function, in source order: the index, slice, division/remainder and\n    single-valued type-assertion expressions (everything in it that can panic at run time) -/\ndef panicSites : List (String × List String) := [\n")
+	rows = rows[:0]
+	for _, k := range []string{"fasta.Reader.Read", "fasta.Reader.header", "fasta.Writer.Write", "fastq.Reader.Read",
+		"fastq.Reader.readHeader", "fastq.Writer.Write", "fastq.Writer.writeHeader", "fastq.maybeID1", "fastq.maybeID2"} {
+		var qs []string
+		for _, e := range sites[k] {
+			qs = append(qs, fmt.Sprintf("%q", e))
+		}
+		rows = append(rows, fmt.Sprintf("  (%q, [%s])", k, strings.Join(qs, ", ")))
 	}
 	sb.WriteString(strings.Join(rows, ",\n") + "]\n\nend Biogo.Generated.Seqio\n")
 	return sb.String(), nil
